@@ -999,8 +999,10 @@ func (c *Ctx) c17StorageTotal() {
 			}
 			fk := c.P.FuncKey(f)
 			found := false
-			for _, g := range WithClosures(f) {
-				o := c.P.OriginsOf(g)
+			// (the method, its closures, and a helper that is new on this tree and receives the list - two writers
+			// merged into one - read with this method's arguments)
+			for _, o := range c.OpContexts(f) {
+				g := o.Fn
 				for _, ci := range Calls(g) {
 					if !strings.HasSuffix(c.P.Describe(ci).Name, "(*Bucket).Put") {
 						continue
